@@ -20,6 +20,8 @@ pub mod iop;
 pub mod plonk;
 pub mod recursion;
 pub mod util;
+#[cfg(feature = "verif_hooks")]
+pub mod verif_hooks;
 
 #[cfg(test)]
 mod lookup_test;
